@@ -788,7 +788,7 @@ pub fn mutate_bytes(src: &[u8], rng: &mut Rng) -> Vec<u8> {
     let n = 1 + rng.below(3) as usize;
     for _ in 0..n {
         let pos = if v.is_empty() { 0 } else { rng.below(v.len() as u64 + 1) as usize };
-        match rng.below(8) {
+        match rng.below(9) {
             0 if !v.is_empty() => { let p = pos.min(v.len() - 1); v.remove(p); }
             1 => { let s = SPECIAL[rng.below(SPECIAL.len() as u64) as usize]; for (k, b) in s.iter().enumerate() { v.insert((pos + k).min(v.len()), *b); } }
             2 if !v.is_empty() => { let p = pos.min(v.len() - 1); v[p] = rng.u8(); }
@@ -811,6 +811,14 @@ pub fn mutate_bytes(src: &[u8], rng: &mut Rng) -> Vec<u8> {
                     v = toks.join(" ").into_bytes();
                 }
             }
+            7 => {
+                // non-ASCII text at the end of some line (a later diagnostic must still slice correctly)
+                let nls: Vec<usize> = v.iter().enumerate().filter(|(_, b)| **b == b'\n').map(|(i, _)| i).collect();
+                if !nls.is_empty() {
+                    let at = nls[rng.below(nls.len() as u64) as usize];
+                    for (k, b) in " \u{e9}\u{20ac}".as_bytes().iter().enumerate() { v.insert(at + k, *b); }
+                }
+            }
             _ => { let s = SPECIAL[rng.below(SPECIAL.len() as u64) as usize]; for b in s.iter() { v.push(*b); } }
         }
     }
@@ -827,6 +835,10 @@ fn pathological(rng: &mut Rng, thorough: bool) -> Vec<(String, Vec<u8>)> {
         ("only-comment".into(), b"; nothing".to_vec()),
         ("non-ascii".into(), "start:\nmov ax, 1 ; caf\u{e9} \u{20ac}\nd\u{e9}f: hlt\n".as_bytes().to_vec()),
         ("non-ascii-in-string".into(), "x: db \"caf\u{e9}\"\nstart:\nhlt\n".as_bytes().to_vec()),
+        ("syntax-error-before-non-ascii".into(), b"start:\nfoo bar \xc3\xa9\n".to_vec()),
+        ("syntax-error-after-non-ascii-line".into(), "start:\nmov ax, 1 ; \u{e9}\u{e9}\u{e9}\n\u{20ac}\u{20ac}\u{20ac} mov bx 5\n".as_bytes().to_vec()),
+        ("undefined-label-after-non-ascii".into(), "start:\n\u{e9}\u{e9}: nop\njmp nowhere\n".as_bytes().to_vec()),
+        ("non-ascii-then-stepping".into(), "start:\nmov ax, 1\nprint reg ; \u{20ac}\nint 3\n".as_bytes().to_vec()),
         ("invalid-utf8".into(), b"start:\nmov ax, 1\n\xff\xfe\n".to_vec()),
         ("nul-bytes".into(), b"start:\n\0\0mov ax, 1\n".to_vec()),
         ("unbalanced-quote".into(), b"x: db \"abc\nstart:\nhlt\n".to_vec()),
